@@ -28,6 +28,14 @@ static inline int vp_snprintf_s(char* t, size_t len, const char* fmt, const char
    return (int)i;
 }
 #define spxSnprintf vp_snprintf_s
+// NameSet::memPack copies the packed block back with memcpy(mem, newmem, newlast), newlast symbolic: the solver's built-in
+// memcpy with a symbolic length exhausts memory, a byte loop (bounded by MEMMAX) does not.
+static inline void* vp_memcpy_loop(void* d, const void* s, size_t n)
+{
+   char* dd = (char*)d; const char* ss = (const char*)s;
+   for(size_t i = 0; i < n; ++i) dd[i] = ss[i];
+   return d;
+}
 #endif
 #define private public
 #define protected public
@@ -36,7 +44,13 @@ static inline int vp_snprintf_s(char* t, size_t len, const char* fmt, const char
 #include "soplex/nameset.h"
 #undef private
 #undef protected
+#ifndef VP_NATIVE
+#define memcpy vp_memcpy_loop
+#endif
 #include "soplex/nameset.cpp"
+#ifndef VP_NATIVE
+#undef memcpy
+#endif
 using namespace soplex;
 
 #ifndef NMAX
@@ -61,7 +75,7 @@ using namespace soplex;
 // Models for the ll2c "replace" directive: within the stated bounds the relocating functions must not be reached at all; the
 // model turns "not reached" into a checked property (id 99) instead of an assumption. NameSet::reMax is never encoded
 // (DataSet::reMax subtracts pointers of different allocations, which the solver's memory model rejects); memRemax/memPack
-// are replaced in c19_nameset.json and real in c19_nameset_mem.json.
+// are replaced in c19_nameset.json; in c19_nameset_mem.json memPack is real (memRemax stays a checked "not reached").
 extern "C" void m_ns_remax(NameSet* self, int newmax) { (void)self; (void)newmax; vp_assert(0, 99); }
 extern "C" void m_ns_memremax(NameSet* self, int newmax) { (void)self; (void)newmax; vp_assert(0, 99); }
 extern "C" void m_ns_mempack(NameSet* self) { (void)self; vp_assert(0, 99); }
@@ -393,28 +407,35 @@ extern "C" void h_ns_mempack()
    check_all(ns, r, 50);
    vp_cover(1);
 }
-// add() running out of string memory: tiny memory (MEMSMALL bytes), the add triggers memPack() and, if that is not enough,
-// memRemax() (string memory is re-allocated, the hash table is rebuilt on the new addresses)
+// add() running out of string memory: with MEMSMALL = 11 bytes two names always fit, a third one fits only after the hole left
+// by a removed name has been garbage collected: add() calls memPack() itself (witness 2), and never needs memRemax().
 #ifndef MEMSMALL
-#define MEMSMALL 8
+#define MEMSMALL 11
 #endif
-extern "C" void h_ns_memgrow()
+extern "C" void h_ns_add_packs()
 {
    NameSet ns(NMAX, MEMSMALL);
    Ref r; r.n = 0;
-   for(int i = 0; i < 3; ++i)
+   for(int i = 0; i < 2; ++i)
    {
       Str s; draw(s);
       int at = find(r, s);
       DataKey k;
       ns.add(k, s.c);
       if(at < 0) ref_append(r, s, k.idx);
-      if(i == 0 && r.n > 0 && vp_int_in(0, 1)) { ns.remove(0); ref_remove(r, 0); }
-      vp_assert(ns.num() == r.n && ns.memSize() <= ns.memMax() && ns.max() == NMAX, 1);
-      for(int j = 0; j < CAP; ++j) if(j < r.n) vp_assert(same(ns[j], r.name[j]) && ns.key(j).idx == r.kidx[j], 2);
    }
+   ns.remove(0); ref_remove(r, 0);               // leaves a hole at the start of the string memory
+   int used0 = ns.memSize();
+   Str s; draw(s);
+   int at = find(r, s);
+   DataKey k;
+   ns.add(k, s.c);
+   if(at < 0) ref_append(r, s, k.idx);
+   vp_assert(ns.num() == r.n && ns.memSize() <= ns.memMax() && ns.memMax() == MEMSMALL && ns.max() == NMAX, 1);
+   for(int j = 0; j < CAP; ++j) if(j < r.n) vp_assert(same(ns[j], r.name[j]) && ns.key(j).idx == r.kidx[j], 2);
    Str q; draw(q);
    vp_assert(ns.number(q.c) == find(r, q), 4);
+   if(at < 0 && ns.memSize() < used0 + slen(s) + 1) vp_cover(2);   // the add did garbage-collect
    vp_cover(1);
 }
 // add(const NameSet&) / add(DataKey[], const NameSet&): union; names already present are skipped
